@@ -101,14 +101,26 @@ def pristine_handler(req):
     kind, payload = req
     chain = json.loads(payload)
     b = app.Builder(LIBS)
+    out = []
     try:
-        style, root, obj = b.build_chain(chain)
-        return ("ok", b.snapshot(style, obj))
+        first = chain[0]
+        style, root = first["style"], first["root"]
+        obj = b.new(style, root, first.get("owner_id"))
+        for op in chain[1:]:
+            obj = b.step(style, root, obj, op)
+            if op["op"] == "apply":
+                # the snapshot after every shorthand call: a chain's prefix is the same
+                # computation as the shorter chain, so one request answers all of them
+                out.append((op["i"], ("ok", b.snapshot(style, obj))))
+        return out
     except Exception as e:
-        return ("exc", type(e).__name__, str(e)[:300])
+        out.append((op["i"], ("exc", type(e).__name__, str(e)[:300])))
+        return out
 
 
 # --------------------------------------------------------------------------- execution
+MANAGER_STYLES = ("dj_manager", "dj_custom_manager", "dj_related_manager")
+
 PROBES = [
     "apply_on_unfiltered", "apply_on_prefiltered", "apply_on_prejoined_used_rel",
     "apply_on_prejoined_other_rel", "apply_on_ordered", "apply_on_annotated",
@@ -117,7 +129,7 @@ PROBES = [
     "apply_after_apply_fail_same_base", "apply_fail_after_joins_recorded",
     "cache_hit", "cache_miss", "cache_eviction", "same_shape_different_literals",
     "style_sa_select", "style_sa_legacy", "style_sa_core", "style_dj_qs",
-    "style_dj_manager", "join_form_rel", "join_form_outer_rel", "join_form_target_on",
+    "style_dj_manager", "style_dj_custom_manager", "style_dj_related_manager", "join_form_rel", "join_form_outer_rel", "join_form_target_on",
     "join_form_target", "join_form_select_related", "host_func_used", "gc_between_ops",
     "chain_depth_ge_3",
 ]
@@ -171,6 +183,7 @@ def execute(plan, pristine, deep=False):
     failed_on = set()        # base qids that saw an apply_fail
     shapes = {}              # template shape -> set of literal tuples (cache reuse probe)
     n_apply = 0
+    applied = []             # (query, op, text, base joins, needed) per successful apply
     max_cache_len = 0
     evictions = 0
 
@@ -205,8 +218,14 @@ def execute(plan, pristine, deep=False):
             k = op["op"]
             i = op["i"]
             if k == "new":
-                obj = b.new(op["style"], op["root"])
-                add(i, op["style"], op["root"], obj, [], None, [], False, [op], 0, None)
+                obj = b.new(op["style"], op["root"], op.get("owner_id"))
+                preds0 = []
+                if op["style"] == "dj_custom_manager":
+                    preds0 = [{"kind": "host", "cond": {"f": "rating", "op": "ge", "v": 3}}]
+                elif op["style"] == "dj_related_manager":
+                    preds0 = [{"kind": "host", "cond": {"f": app.RELATED[op["root"]][2],
+                                                        "op": "eq", "v": op["owner_id"]}}]
+                add(i, op["style"], op["root"], obj, preds0, None, [], False, [op], 0, None)
                 probes["style_" + op["style"]] += 1
                 log.append(("new", i, op["style"], op["root"]))
                 continue
@@ -242,7 +261,7 @@ def execute(plan, pristine, deep=False):
                     order = op["o"]
                 else:
                     ann = True
-                nstyle = "dj_qs" if style == "dj_manager" else style
+                nstyle = "dj_qs" if style in MANAGER_STYLES else style
                 nq = add(i, nstyle, root, obj, preds, order, joins, ann, base.chain + [op],
                          base.depth, base.qid)
                 if k == "join":
@@ -289,7 +308,7 @@ def execute(plan, pristine, deep=False):
                     probes["apply_on_shorthand_result"] += 1
                 if base.depth >= 2:
                     probes["chain_depth_ge_3"] += 1
-                if style == "dj_manager":
+                if style in MANAGER_STYLES:
                     probes["apply_on_manager"] += 1
                 if need:
                     probes["apply_with_navigation"] += 1
@@ -314,12 +333,12 @@ def execute(plan, pristine, deep=False):
                     log.append(("apply-raised", i, base.qid))
                     continue
                 check_intact(base, op, "after-apply")
-                nstyle = "dj_qs" if style == "dj_manager" else style
+                nstyle = "dj_qs" if style in MANAGER_STYLES else style
                 q = add(i, nstyle, root, obj, base.preds + [{"kind": "odata", "t": t}],
                         base.order, base.joins, base.annotated, base.chain + [op],
                         base.depth + 1, base.qid)
                 q.have.update(need)
-                if type(obj) is not type(pool[op["base"]].obj) and style not in ("dj_manager",):
+                if type(obj) is not type(pool[op["base"]].obj) and style not in MANAGER_STYLES:
                     viol("result-type-changed", op, style=style, text=text,
                          expected=type(base.obj).__name__, got=type(obj).__name__)
                 # --- joins: not twice, every needed one added
@@ -359,14 +378,8 @@ def execute(plan, pristine, deep=False):
                                  needed=[list(n) for n in need])
                             tainted.add(q.qid)
                             break
-                # --- history independence: the same chain in a pristine process
-                ref = pristine.ask(("chain", json.dumps(q.chain, sort_keys=True)))
-                if ref[0] != "ok" or _norm(ref[1]) != _norm(q.snap0):
-                    if q.qid not in tainted:
-                        viol("history-dependent-result", op, style=style, text=text,
-                             expected=ref, got=q.snap0, base_joins=base.joins,
-                             needed=[list(n) for n in need])
-                        tainted.add(q.qid)
+                # history independence is checked at the end of the history, see below
+                applied.append((q, op, text, base.joins, [list(n) for n in need]))
                 log.append(("apply", i, base.qid, text))
                 continue
             if k == "run":
@@ -420,6 +433,27 @@ def execute(plan, pristine, deep=False):
                 log.append(("run", i, q.qid, tuple(got)))
                 continue
             raise ValueError(k)
+        # --- history independence: every shorthand result equals the result of the same
+        # call chain built in a pristine process (no other calls before or in between)
+        chains = [json.dumps(q.chain, sort_keys=True) for q, _, _, _, _ in applied]
+        maximal = [c for c in sorted(set(chains))
+                   if not any(o != c and o.startswith(c[:-1] + ",") for o in chains)]
+        answers = {}
+        for c, ans in zip(maximal, pristine.ask_many([("chain", c) for c in maximal])):
+            for opi, snap in ans:
+                answers.setdefault((c, opi), snap)
+        for (q, op, text, bjoins, need), c in zip(applied, chains):
+            if q.qid in tainted:
+                continue
+            ref = None
+            for m in maximal:
+                if m == c or m.startswith(c[:-1] + ","):
+                    ref = answers.get((m, op["i"]))
+                    break
+            if ref is None or ref[0] != "ok" or _norm(ref[1]) != _norm(q.snap0):
+                viol("history-dependent-result", op, style=q.style, text=text,
+                     expected=ref, got=q.snap0, base_joins=bjoins, needed=need)
+                tainted.add(q.qid)
         # --- end of history: every live query still means what it meant when it was built
         end_op = {"i": "end", "op": "end"}
         for qid in sorted(pool, key=str):
@@ -478,7 +512,7 @@ class _G:
         self.applied = applied
 
     def derive(self, i, **kw):
-        g = _G(i, "dj_qs" if self.style == "dj_manager" else self.style, self.root,
+        g = _G(i, "dj_qs" if self.style in MANAGER_STYLES else self.style, self.root,
                self.depth, self.joins, self.order, self.annotated, self.paths, self.applied)
         for k, v in kw.items():
             setattr(g, k, v)
@@ -506,8 +540,8 @@ def gen_plan(seed, run, finding_shapes=True):
     gs = []
     n_ops = rng.randint(5, 14)
     # a history works on one or two backends
-    styles = rng.sample(["sa_select", "sa_legacy", "sa_core", "dj_qs", "dj_manager"],
-                        rng.choice([1, 1, 2]))
+    styles = rng.sample(["sa_select", "sa_legacy", "sa_core", "dj_qs", "dj_manager",
+                         "dj_custom_manager", "dj_related_manager"], rng.choice([1, 1, 2]))
     ctr = [0]
 
     def nid():
@@ -518,7 +552,15 @@ def gen_plan(seed, run, finding_shapes=True):
         style = rng.choice(styles)
         root = rng.choice(["Post", "Comment", "Author", "Post", "Comment"])
         i = nid()
-        ops.append({"i": i, "op": "new", "style": style, "root": root})
+        op = {"i": i, "op": "new", "style": style, "root": root}
+        if style == "dj_custom_manager":
+            op["root"] = root = "Post"
+        elif style == "dj_related_manager":
+            if root == "Author":
+                op["root"] = root = "Post"
+            owner = {"Post": "Author", "Comment": "Post"}[root]
+            op["owner_id"] = rng.choice(plan["data"][owner])["id"]
+        ops.append(op)
         g = _G(i, style, root)
         gs.append(g)
         return g
@@ -584,7 +626,13 @@ def gen_plan(seed, run, finding_shapes=True):
         elif r < 0.72:
             # apply a filter; sometimes the previous template again with other literals
             t = None
-            if last_template and last_template[0] == g.root and rng.random() < 0.3 and \
+            if last_template and rng.random() < 0.3:
+                # the same statement shape again with other literal values - on the very
+                # same base query, so that the compiled-statement cache can hit
+                g = last_template[2]
+                dj = g.style.startswith("dj")
+                core = g.style == "sa_core"
+            if last_template and last_template[0] == g.root and rng.random() < 0.6 and \
                     (not core or not T.needed_rels(last_template[1], g.root)):
                 t = T.vary_literals(rng, last_template[1])
                 if T.uses(t, "ann") and not g.annotated:
@@ -614,7 +662,7 @@ def gen_plan(seed, run, finding_shapes=True):
             i = nid()
             ops.append({"i": i, "op": "apply", "base": g.i, "t": t})
             gs.append(g.derive(i, depth=g.depth + 1, paths=g.paths | newp, applied=g.applied + 1))
-            last_template = (g.root, t)
+            last_template = (g.root, t, g)
         elif r < 0.80:
             bad = dict(rng.choice(BAD_FILTERS))
             rels = sorted(T.TO_ONE[g.root])
@@ -780,6 +828,10 @@ def worker_teardown():
     pr = _W.pop("pristine", None)
     if pr is not None:
         pr.close()
+
+
+def get_pristine():
+    return _W["pristine"]
 
 
 def make_plan(seed, run, opts=None):
